@@ -160,5 +160,8 @@ def expand_in_context(step, raw: ast.AST, node: ast.AST) -> ast.AST:
         if cur is None:
             return step.expand(node)
     if type(cur) is not type(node):
+        # a comprehension variable is replaced by its provenance (Σelem(...), Σindex(...), a projected element)
+        if isinstance(node, ast.Name) and isinstance(cur, ast.AST):
+            return cur
         return step.expand(node)
     return cur
